@@ -39,6 +39,9 @@ Content(kind, f, t) ==
     [] kind = "old"   -> [NoRules EXCEPT !["o"] = RolesB({Stamp(f, t)})]
     [] kind = "alias" -> [NoRules EXCEPT !["o"] = Alias("n")]
     [] kind = "both"  -> [NoRules EXCEPT !["n"] = RolesB({Stamp(f, t)}), !["n2"] = RolesB({Stamp(f, t) \o "#2"})]
+    \* content that does not depend on when it is written: re-creating or
+    \* rewriting a file with it gives byte-identical data under a newer mtime
+    [] kind = "fixed" -> [NoRules EXCEPT !["n"] = RolesB({f \o "@fixed"})]
 
 Init ==
   /\ fs = [f \in AllFiles |-> IF f = "main" /\ StartWithMain THEN [exists |-> TRUE, mtime |-> 1, content |-> Content("new", "main", 1)] ELSE Absent]
@@ -88,7 +91,7 @@ Load(force) ==
   /\ synced' = TRUE /\ lastop' = (IF force THEN "forceload" ELSE "load")
   /\ UNCHANGED <<fs, dirs, clock>>
 
-Next == \/ \E f \in Mutable : \/ \E k \in {"new", "old", "alias", "both"} : Write(f, k)
+Next == \/ \E f \in Mutable : \/ \E k \in {"new", "old", "alias", "both", "fixed"} : Write(f, k)
                               \/ Empty(f) \/ Touch(f) \/ Delete(f)
         \/ \E f \in {"d1/.hidden", "d1/sub"} : TouchIgnored(f)
         \/ Load(FALSE) \/ Load(TRUE)
